@@ -7,6 +7,7 @@ CONSTANTS
   Kinds = {"xof", "xofa", "prf"}
   WithCopy = FALSE
   Duplex = FALSE
+  ChunkLens <- AllChunks
   PermOp <- SPermOp
   BX <- SBX
   BC <- SBC
